@@ -57,6 +57,37 @@ def _is_remote(exc):
     return isinstance(getattr(exc, '__cause__', None), RemoteTraceback)
 
 
+class _NoWait:
+    def __enter__(self):
+        return self
+
+    def __exit__(self, *a):
+        return False
+
+    def acquire(self, *a):
+        return True
+
+    def release(self):
+        pass
+
+    def wait(self, timeout=None):
+        return False
+
+    def notify(self, *a):
+        pass
+    notify_all = notify
+
+
+class _GenIter:
+    """gives the flattening generator the next(timeout=) interface of the iterators"""
+
+    def __init__(self, gen):
+        self.gen = gen
+
+    def next(self, timeout=None):
+        return next(self.gen)
+
+
 def _scenario(kind, n, c, p_size, bad, ev, want):
     w = W.World()
     with untraced():
@@ -69,10 +100,17 @@ def _scenario(kind, n, c, p_size, bad, ev, want):
         h = p.map_async(Fn(bad), list(range(n)), chunksize=chunk)
     elif kind == 'starmap':
         h = p.starmap_async(Fn2(bad), [(x, x + 10) for x in range(n)], chunksize=chunk)
-    elif kind == 'imap':
-        h = p.imap(Fn(bad), list(range(n)))
-    elif kind == 'imapu':
-        h = p.imap_unordered(Fn(bad), list(range(n)))
+    elif kind in ('imap', 'imapu'):
+        if chunk and chunk > 1 and bad:
+            raise Prune()        # with chunks, one failing item fails its whole chunk and ends the flattening generator: outside the claim
+        h = (p.imap if kind == 'imap' else p.imap_unordered)(Fn(bad), list(range(n)), **({'chunksize': chunk} if chunk else {}))
+        if chunk and chunk > 1:
+            # imap(chunksize > 1) hands back a generator that flattens the chunks of the real iterator (which sits in the cache);
+            # the consumer below must never sleep: a wait() that returns at once turns a missing item into TimeoutError
+            gen = h
+            it = list(p._cache.values())[len(p._cache) - 1]
+            it._cond = _NoWait()
+            h = _GenIter(gen)
     else:
         if n == 0:
             raise Prune()
@@ -172,7 +210,7 @@ def _go1(code, want):
     n = (PART // 5) % (NMAX + 1)
     if kind == 'apply':
         n += 1                                   # apply has no empty input: argument positions 0..NMAX
-    c = nd.draw(0, CMAX) if kind in ('map', 'starmap') else 0
+    c = nd.draw(0, CMAX) if kind in ('map', 'starmap', 'imap', 'imapu') else 0
     p_size = 1 + nd.draw(0, 1)
     if THOROUGH:
         bad = 0
